@@ -8,8 +8,8 @@
    store as it is, [rq_answer_spec] what the property demands; [rq_handle] the
    whole request (prefix validity, parameter parsing, limit, format). *)
 From stdpp Require Import gmap.
-From Coq Require Import NArith List.
-From RV Require Import Rib.RibModel PathConf.PathConfModel RibQuery.RibQueryModel RibQuery.RibQueryProofs.
+From Coq Require Import NArith ZArith List.
+From RV Require Import Rib.RibModel PathConf.PathConfModel RibQuery.RibQueryModel RibQuery.RibQueryProofs RibQuery.RibConfModel RibQuery.RibConfProofs.
 Import ListNotations.
 Local Open Scope N_scope.
 
@@ -361,3 +361,135 @@ Example C11_example :
     rq_handle_spec (MkLim 8 19) r w_attrs w_reg rq = RJson a /\
     rq_handle (MkLim 9 19) r w_attrs w_reg rq = RBad.
 Proof. exact example_ok. Qed.
+
+(* ---- the configuration surface: what the TOML file says is what the unit enforces.
+   Vocabulary (RibConfModel): [rc_more] = the `[query_limits.more_specifics]` table of a rib
+   unit as a file states it (per key: unset / an integer / a value of another type; other keys
+   or not), [rc_ql] = the `query_limits` key (absent / a table without more_specifics / with),
+   [rc_unit] adds `http_api_path`; [rc_limits] = the limits the deserialiser hands to the unit
+   (None: the file is refused); [rc_step] / [rc_run] = the unit over a history of loads
+   (start-up, reloads), updates and requests; None = nothing runs yet. *)
+
+(* which tables are accepted: each key on its own is unset or a u8 *)
+Theorem C11_config_accepts : forall m,
+  rc_more_limits m <> None <-> rc_val_ok (ms_v4 m) /\ rc_val_ok (ms_v6 m).
+Proof. exact more_limits_accepts. Qed.
+Print Assumptions C11_config_accepts.
+
+(* an unset key means its documented default (/8, /19), a set key means its value -
+   whichever other keys are set, and to whatever *)
+Theorem C11_config_key_semantics : forall m l,
+  rc_more_limits m = Some l ->
+  forall v6,
+    match rc_stated v6 m with
+    | None => rq_limit l v6 = rc_default_limit v6
+    | Some (VInt z) => Z.of_N (rq_limit l v6) = z
+    | Some VOther => False
+    end.
+Proof. exact config_key_semantics. Qed.
+Print Assumptions C11_config_key_semantics.
+
+Theorem C11_config_keys_independent : forall m m' l l' v6,
+  rc_more_limits m = Some l -> rc_more_limits m' = Some l' ->
+  rc_stated v6 m = rc_stated v6 m' -> rq_limit l v6 = rq_limit l' v6.
+Proof. exact config_keys_independent. Qed.
+Print Assumptions C11_config_keys_independent.
+
+(* all presence patterns of the `query_limits` key at once: absent = both defaults; a table
+   without more_specifics is refused; with one, every key by itself *)
+Theorem C11_config_limits_spec : forall q l,
+  rc_limits q = Some l <->
+  match q with
+  | QlAbsent => l = MkLim 8 19
+  | QlEmpty => False
+  | QlMore m =>
+    rc_val_ok (ms_v4 m) /\ rc_val_ok (ms_v6 m) /\
+    lim_v4 l = match ms_v4 m with Some (VInt z) => Z.to_N z | _ => 8 end /\
+    lim_v6 l = match ms_v6 m with Some (VInt z) => Z.to_N z | _ => 19 end
+  end.
+Proof. exact config_limits_spec. Qed.
+Print Assumptions C11_config_limits_spec.
+
+(* http_api_path: trailing '/'s of the configured text do not matter, the unit answers at
+   the text with exactly one '/' at its end *)
+Theorem C11_config_path_normalised : forall p,
+  rc_norm_path (rc_norm_path p) = rc_norm_path p /\
+  rc_norm_path (p ++ [47]) = rc_norm_path p /\
+  exists q, rc_norm_path p = q ++ [47] /\ (forall q', q <> q' ++ [47]).
+Proof. exact norm_path_spec. Qed.
+Print Assumptions C11_config_path_normalised.
+
+(* loads: a refused file changes nothing; an accepted one puts its limits in force, keeps
+   the RIB content and the path the unit answers at (the file's path only at the start) *)
+Theorem C11_config_refused_load_is_noop : forall answer tbl reg s u,
+  rc_limits (u_ql u) = None -> rc_step_with answer tbl reg s (KLoad u) = (s, None).
+Proof. exact refused_load_is_noop. Qed.
+Print Assumptions C11_config_refused_load_is_noop.
+
+Theorem C11_config_accepted_load : forall answer tbl reg s u l,
+  rc_limits (u_ql u) = Some l ->
+  exists k', rc_step_with answer tbl reg s (KLoad u) = (Some k', None) /\
+    st_lim (k_st k') = l /\
+    match s with
+    | None => k_path k' = rc_path_of u /\ st_rib (k_st k') = rib_empty
+    | Some k => k_path k' = k_path k /\ st_rib (k_st k') = st_rib (k_st k)
+    end.
+Proof. exact accepted_load_sets_limits. Qed.
+Print Assumptions C11_config_accepted_load.
+
+(* refinement, over ALL histories: the unit that a configuration started is the unit of
+   C11_limit_is_current on the lowered history - an accepted file is its OLimits (start-up
+   AND every reload), a refused file and a request below another path are invisible to it.
+   So every theorem above about [rq_run] holds for the configured unit. *)
+Theorem C11_config_run_refines : forall answer tbl reg h k,
+  rc_hits (rc_run_with answer tbl reg (Some k) h) =
+  rq_run_with answer tbl reg (k_st k) (rc_lower (k_path k) h).
+Proof. exact run_refines. Qed.
+Print Assumptions C11_config_run_refines.
+
+Theorem C11_config_start_refines : forall answer tbl reg u l h,
+  rc_limits (u_ql u) = Some l ->
+  rc_hits (rc_run_with answer tbl reg None (KLoad u :: h)) =
+  rq_run_with answer tbl reg (MkSt l rib_empty) (rc_lower (rc_path_of u) h).
+Proof. exact start_refines. Qed.
+Print Assumptions C11_config_start_refines.
+
+(* what a client sees right after a load (start-up: s = None; reload: s = a running unit):
+   a moreSpecifics request for a family whose key the file leaves unset is refused iff the
+   prefix is shorter than the documented default, for a key set to z iff shorter than /z *)
+Theorem C11_config_decides : forall tbl reg s u m rq q inc,
+  u_ql u = QlMore m -> rc_more_limits m <> None ->
+  rq_prefix_of rq = Some q ->
+  rq_parse_include (rq_params (rq_raw rq)) = Some inc -> i_more inc = true ->
+  let base := match s with None => rc_path_of u | Some k => k_path k end in
+  let bound := match rc_stated (rq_v6 rq) m with Some (VInt z) => z | _ => Z.of_N (rc_default_limit (rq_v6 rq)) end in
+  let resp := rc_run tbl reg s [KLoad u; KRequest base rq] in
+  ((Z.of_N (rq_len q) < bound)%Z -> resp = [KResp RBad]) /\
+  ((bound <= Z.of_N (rq_len q))%Z -> exists r, resp = [KResp r] /\
+     r = rq_handle (MkLim 0 0) (match s with None => rib_empty | Some k => st_rib (k_st k) end) tbl reg rq).
+Proof. exact config_decides. Qed.
+Print Assumptions C11_config_decides.
+
+(* non-vacuity: only the IPv6 key (32) at start-up - IPv4 limit /8: moreSpecifics of /0 and /7
+   refused, of /8 answered, IPv6 /31 refused, /32 answered; reload with only the IPv4 key (16)
+   and another http_api_path - IPv6 back to /19, IPv4 /8 refused now; two reloads the
+   deserialiser refuses change nothing; the unit still answers at its first path only *)
+Example C11_config_history_example :
+  let only6 := MkUnit (QlMore (MkMore None (Some (VInt 32)) false)) None in
+  let only4 := MkUnit (QlMore (MkMore (Some (VInt 16)) None true)) (Some [47; 120; 47]) in
+  let empty := MkUnit QlEmpty None in
+  let big := MkUnit (QlMore (MkMore (Some (VInt 256)) None false)) None in
+  let p := rc_default_path in
+  let a := RJson (MkAns [] None (Some [])) in
+  rc_run w_attrs w_reg None
+    [KRequest p (w_conf_rq false 0); KLoad empty; KLoad only6;
+     KRequest p (w_conf_rq false 0); KRequest p (w_conf_rq false 7); KRequest p (w_conf_rq false 8);
+     KRequest p (w_conf_rq true 31); KRequest p (w_conf_rq true 32);
+     KLoad only4;
+     KRequest p (w_conf_rq true 16); KRequest p (w_conf_rq true 19); KRequest p (w_conf_rq false 8); KRequest p (w_conf_rq false 16);
+     KLoad empty; KLoad big;
+     KRequest p (w_conf_rq false 15); KRequest p (w_conf_rq false 16); KRequest [47; 120; 47] (w_conf_rq false 16)]
+  = [KDown; KResp RBad; KResp RBad; KResp a; KResp RBad; KResp a;
+     KResp RBad; KResp a; KResp RBad; KResp a;
+     KResp RBad; KResp a; KNoUnit].
+Proof. exact config_history_example. Qed.
